@@ -1190,6 +1190,7 @@ func checkC09(p *Prog, r *Report) {
 	ruleHTTPStatus(p, r)
 	ruleValidatorsExamineAllLines(p, r)
 	ruleEchoIsPrefix(p, r)
+	ruleDeferredErrorPreserved(p, r, sessionPkgs)
 	r.rule("R09.9", "The rejecting return of the output validators (asa/ios isValidOutput) keeps its audited controlling conditions (tables/guards.tsv rows for C09): a non-empty line is rejected unless it is an INFO: or WARNING: line (ASA: or expected output of that command kind); a further class of lines that is waved through changes these conditions.")
 	ruleGuardTable(p, r, "R09.9", "C09")
 	ruleShortCircuitSkips(p, r, sessionPkgs, newSummarizer(p))
@@ -1560,4 +1561,107 @@ func ruleEchoIsPrefix(p *Prog, r *Report) {
 	}
 	r.add("R09.10", "echo-prefix-test|(*console.Conn).StripEcho", p.pos(fn.Pos()), "the response must start with the echo of the command", okAbort && other == "",
 		"output printed before the echo is thrown away instead of being reported: an error message of the device is lost and the run goes on. "+other)
+}
+
+// ruleDeferredErrorPreserved: R09.11.
+func ruleDeferredErrorPreserved(p *Prog, r *Report, pkgs map[string]bool) {
+	r.rule("R09.11", "A deferred closure never erases a pending error: where a deferred function literal assigns the enclosing function's named error result, the assigned value is provably non-nil, or the assignment is controlled by the result being nil so far, or it is the result of a helper each of whose returns is provably non-nil or is the error it was given (its parameter). A helper that returns nil on some path while it was handed the pending error (`if fh == nil { return nil }`) makes the failure of the device check or of a change command disappear: the run goes on.")
+	n := 0
+	for _, fn := range allModFuncs(p) {
+		if fn.Parent() == nil || !pkgs[pkgOfFunc(fn)] {
+			continue
+		}
+		// is fn deferred in its parent?
+		deferred := false
+		for _, b := range fn.Parent().Blocks {
+			for _, in := range b.Instrs {
+				if d, ok := in.(*ssa.Defer); ok {
+					if mc, ok := d.Common().Value.(*ssa.MakeClosure); ok && mc.Fn == ssa.Value(fn) {
+						deferred = true
+					}
+				}
+			}
+		}
+		if !deferred {
+			continue
+		}
+		for _, b := range fn.Blocks {
+			for _, in := range b.Instrs {
+				st, ok := in.(*ssa.Store)
+				if !ok {
+					continue
+				}
+				fv, ok := st.Addr.(*ssa.FreeVar)
+				if !ok || types.TypeString(fv.Type().Underlying().(*types.Pointer).Elem(), nil) != "error" {
+					continue
+				}
+				// bound to a named result of the parent
+				isResult := false
+				for _, bd := range freeVarBindings(fv) {
+					if al, ok := bd.(*ssa.Alloc); ok {
+						res := al.Parent().Signature.Results()
+						for i := 0; i < res.Len(); i++ {
+							if res.At(i).Name() != "" && res.At(i).Name() == al.Comment {
+								isResult = true
+							}
+						}
+					}
+				}
+				if !isResult {
+					continue
+				}
+				n++
+				ok2, why := false, ""
+				if errProvablyNonNil(st.Val, st.Block(), 0) {
+					ok2 = true
+				}
+				// only when no error so far
+				for _, g := range guardSet(st) {
+					if strings.HasPrefix(g, "nil == ") && strings.Contains(g, "error") || strings.HasSuffix(g, " == nil") && strings.Contains(g, "error") {
+						ok2 = true
+					}
+				}
+				if !ok2 {
+					if call, isCall := st.Val.(*ssa.Call); isCall {
+						if h := call.Common().StaticCallee(); h != nil && isModFunc(h) {
+							// which parameter receives the pending error?
+							pidx := -1
+							for i, a := range call.Common().Args {
+								if u, ok := a.(*ssa.UnOp); ok && u.X == ssa.Value(fv) {
+									pidx = i
+								}
+							}
+							all := pidx >= 0
+							for _, ret := range returnsOf(h) {
+								rv := ret.Results[len(ret.Results)-1]
+								if errProvablyNonNil(rv, ret.Block(), 0) {
+									continue
+								}
+								isParam := false
+								for _, rt := range valueRoots(rv) {
+									if pa, ok := rt.(*ssa.Parameter); ok && pidx >= 0 && pidx < len(h.Params) && pa == h.Params[pidx] {
+										isParam = true
+									} else if !errProvablyNonNil(rt, ret.Block(), 0) {
+										isParam = false
+										why = "helper " + shortName(h) + " can return " + descValue(rt, 0) + " at " + p.ipos(ret)
+										break
+									}
+								}
+								if !isParam {
+									all = false
+									if why == "" {
+										why = "helper " + shortName(h) + " has a return at " + p.ipos(ret) + " that is neither its error parameter nor non-nil"
+									}
+								}
+							}
+							ok2 = all
+						}
+					}
+				}
+				r.add("R09.11", "deferred-error-preserved|"+fnDisplay(fn), p.ipos(st), "the deferred assignment to the error result keeps a pending error", ok2,
+					"a pending error can be replaced by nil in a deferred closure: "+why)
+			}
+		}
+	}
+	r.note("R09.11: %d deferred assignments to named error results", n)
 }
